@@ -86,6 +86,7 @@ void walk(X const &x, F const &f)
   }
   else if constexpr (is_fcppt_variant<U>::value) { (void)fcppt::variant::apply([&f](auto const &inner) { walk(inner, f); return 0; }, x); }
   else if constexpr (is_fcppt_reference<U>::value) { walk(x.get(), f); }
+  else if constexpr (requires { typename U::value_type; typename U::tag_type; x.get(); }) { walk(x.get(), f); } // fcppt::strong_typedef
   else if constexpr (is_std_pair<U>::value) { walk(x.first, f); walk(x.second, f); }
   else if constexpr (is_fcppt_tuple<U>::value)
   {
@@ -195,6 +196,38 @@ void end(R const &res, std::vector<std::vector<long>> const &final_args)
     s += "{\"objs\":" + vj::arr(a) + "}";
   }
   trk::emit(s + "]}");
+}
+
+// "labels" event (record operations): which tracked member sits under which label, for the arguments
+// (captured before the call) and for the result
+struct lab
+{
+  char const *l;
+  long obj;
+};
+inline std::string labs_json(std::vector<lab> const &v)
+{
+  std::string s = "[";
+  bool first = true;
+  for (auto const &x : v)
+  {
+    if (!first) s += ',';
+    first = false;
+    s += std::string{"{\"l\":\""} + x.l + "\",\"obj\":" + std::to_string(x.obj) + "}";
+  }
+  return s + "]";
+}
+inline void labels(std::vector<std::vector<lab>> const &args, std::vector<lab> const &res)
+{
+  std::string s = "{\"e\":\"labels\",\"arg\":[";
+  bool first = true;
+  for (auto const &a : args)
+  {
+    if (!first) s += ',';
+    first = false;
+    s += labs_json(a);
+  }
+  trk::emit(s + "],\"res\":" + labs_json(res) + "}");
 }
 
 // ------------------------------------------------------------------ value categories
